@@ -392,14 +392,15 @@ def r0_negotiation(ctx):
 def run(ctx):
     res = r0_negotiation(ctx)
     r0, ok = res[0], res[1]
-    if ok:
+    import os
+    if ok and not os.environ.get("VERIF_FORCE_FALLBACK"):
         return [r0]
     # the negotiation code could not be evaluated abstractly (a construct outside rules/absint.py): fall back to the
     # structural clauses on the MIR / syntax of the same functions
     why = res[2] if len(res) > 2 else "anchor missing"
     prog = ctx.mir("main")
     rules = [r1_no_cross_request_reordering(ctx, prog), r2_pass_order(ctx, prog), r3_provenance(ctx, prog), r4_predicate(ctx)]
-    if not r0.violations:
+    if not ok and not r0.violations:
         r0.inst("evaluation not available", "fallback to structural rules R1-R4: %s" % str(why)[:120])
         r0.floor = 1
     return [r0] + rules
